@@ -19,7 +19,7 @@ from xparse import walk, norm
 import vexpr
 
 FEATURES = ['std', 'libm', 'vec8', 'vec16', 'vec32', 'vec64', 'rgb', 'rgba', 'uv', 'uvw']
-TRIALS = 4000
+TRIALS = 4800
 PRIMS = {'f64', 'f32', 'u8', 'u16', 'u32', 'u64', 'usize', 'i8', 'i16', 'i32', 'i64', 'isize', 'bool'}
 
 
@@ -229,12 +229,13 @@ PRELUDE = r'''
 // mode 0: small dyadic values in [-3, 3]; mode 1: mostly 0 / 1 / -1 (reaches special-case branches and antecedents such as
 // "the last row is (0,0,0,1)"); mode 2: like mode 0, with every 4x4 matrix made affine
 // mode 3: every value repeats (possibly negated) one of the last values with probability 1/2 (equal end points, parallel / opposite vectors, symmetric matrices)
+// mode 5: each value independently at scale 1, 1e-9 or 1e-5 (nearly coincident points next to ordinary radii)
 // mode 4: mode 0 with every value scaled by 1e-4 or 1e-9 (reaches the epsilon-threshold branches: nearly degenerate segments, short axes)
 pub struct Rng(pub u64, pub u8, pub [f64; 4], pub f64);
 impl Rng { pub fn next(&mut self) -> u64 { self.0 = self.0.wrapping_mul(6364136223846793005).wrapping_add(1442695040888963407); (self.0 >> 33) } }
 pub trait Gen: Sized { fn gen(r: &mut Rng) -> Self; fn konst(_v: i32) -> Self { unimplemented!() } }
 fn gen_f(r: &mut Rng) -> f64 {
-    let v = gen_f0(r) * r.3;
+    let v = gen_f0(r) * (if r.1 == 5 { match r.next() % 4 { 0 | 1 => 1.0, 2 => 1e-9, _ => 1e-5 } } else { r.3 });
     let k = (r.next() % 4) as usize;
     if r.1 == 3 && r.next() % 2 == 0 { let w = r.2[k]; return if r.next() % 4 == 0 { -w } else { w }; }
     r.2[k] = v;
@@ -262,7 +263,7 @@ def render_body(exp, specs, layouts, paths=None):
     for k, (sp, layout) in enumerate(zip(specs, layouts)):
         uses = ['use super::vek::mat::repr_c::%s::*;' % layout, 'use super::vek::vec::repr_c::*;', 'use super::vek::quaternion::repr_c::*;',
                 'use super::vek::geom::repr_c::*;', 'use super::vek::geom::FrustumPlanes;', 'use super::vek::bezier::repr_c::*;', 'use super::vek::transform::repr_c::*;',
-                'use super::vek::transition::*;', 'use super::vek::ops::*;', 'use core::ops::*;', 'use super::*;']
+                'use super::vek::transition::*;', 'use super::vek::ops::*;', 'use core::ops::*;', 'use super::vek::num_traits::{Zero, One};', 'use super::*;']
         for n_ in (2, 3, 4):      # the aliases bezier.rs / geom.rs use
             uses.append('use super::vek::mat::repr_c::row_major::Mat%d as Rows%d;' % (n_, n_))
             uses.append('use super::vek::mat::repr_c::column_major::Mat%d as Cols%d;' % (n_, n_))
@@ -273,7 +274,7 @@ def render_body(exp, specs, layouts, paths=None):
         lines = ['pub mod f%d {' % k] + ['    ' + x for x in uses]
         lines.append('    pub fn run(n: u32) -> Vec<(String, String, String, String)> {')
         lines.append('        let mut out = Vec::new();')
-        lines.append('        for t in 0..n { let mut r = Rng(0x9E3779B97F4A7C15u64 ^ (t as u64 + 1).wrapping_mul(0xD1B54A32D192ED03), (t % 5) as u8, [0.0, 1.0, -1.0, 0.5], if t % 5 == 4 { if (t / 5) % 2 == 0 { 1e-4 } else { 1e-9 } } else { 1.0 });')
+        lines.append('        for t in 0..n { let mut r = Rng(0x9E3779B97F4A7C15u64 ^ (t as u64 + 1).wrapping_mul(0xD1B54A32D192ED03), (t % 6) as u8, [0.0, 1.0, -1.0, 0.5], if t % 6 == 4 { if (t / 6) % 2 == 0 { 1e-4 } else { 1e-9 } } else { 1.0 });')
         names, ins, outs = [], [], []
         vn = {}
         if sp['recv']:
